@@ -99,19 +99,19 @@ Proof.
     + cbn [split_fuel]. destruct (Nat.eqb_spec c 0); [lia|].
       cbn [map]. rewrite IH by (rewrite skipn_length; cbn [length] in Hf |- *; lia).
       rewrite firstn_length, skipn_length.
-      set (n := length (x :: r)) in *.
-      assert (Hn : (0 < n)%nat) by (unfold n; simpl; lia).
-      destruct (Nat.lt_ge_cases n c) as [Hlt | Hge].
+      set (nn := length (x :: r)) in *.
+      assert (Hn : (0 < nn)%nat) by (unfold nn; simpl; lia).
+      destruct (Nat.lt_ge_cases nn c) as [Hlt | Hge].
       * rewrite Nat.min_r by lia.
-        replace (n - c)%nat with 0%nat by lia.
+        replace (nn - c)%nat with 0%nat by lia.
         rewrite Nat.div_0_l, Nat.mod_0_l by lia.
-        rewrite (Nat.div_small n c), (Nat.mod_small n c) by lia.
-        simpl. destruct (Nat.eqb_spec n 0); [lia | reflexivity].
+        rewrite (Nat.div_small nn c), (Nat.mod_small nn c) by lia.
+        simpl. destruct (Nat.eqb_spec nn 0); [lia | reflexivity].
       * rewrite Nat.min_l by lia.
-        assert (Hd : (n / c = S ((n - c) / c))%nat).
-        { replace n with ((n - c) + 1 * c)%nat at 1 by lia. rewrite Nat.div_add by lia. lia. }
-        assert (Hm : (n mod c = (n - c) mod c)%nat).
-        { replace n with ((n - c) + 1 * c)%nat at 1 by lia. rewrite Nat.mod_add by lia. reflexivity. }
+        assert (Hd : (nn / c = S ((nn - c) / c))%nat).
+        { replace nn with ((nn - c) + 1 * c)%nat at 1 by lia. rewrite Nat.div_add by lia. lia. }
+        assert (Hm : (nn mod c = (nn - c) mod c)%nat).
+        { replace nn with ((nn - c) + 1 * c)%nat at 1 by lia. rewrite Nat.mod_add by lia. reflexivity. }
         rewrite Hd, Hm. reflexivity.
 Qed.
 
